@@ -456,6 +456,7 @@ def inv2(st, acc=None):
 
 LAG_KINDS = ["id", "b50", "tick"]
 LAG_GAPS = [0.3, 57.4, 61.2]
+ORIGINS = [0.0, 0.2]
 LAGS = [0.0, 1.4]
 
 
@@ -506,6 +507,10 @@ def run_listing(prefix, depth, kinds, gaps, acc):
     st = S2(Decode(), Decode(), 1000.7, {})
     trace = []
     for ev in prefix:
+        if ev[0] == "@":            # origin marker: the history starts at this clock value instead of 1000.7
+            st = S2(Decode(), Decode(), ev[1], {})
+            trace.append(tuple(ev))
+            continue
         st = step2(st, *ev)
         trace.append(tuple(ev))
         v = inv2(st, acc)
@@ -518,6 +523,9 @@ def run_listing(prefix, depth, kinds, gaps, acc):
 def replay_listing(events):
     st = S2(Decode(), Decode(), 1000.7, {})
     for ev in events:
+        if ev[0] == "@":
+            st = S2(Decode(), Decode(), ev[1], {})
+            continue
         st = step2(st, *ev)
         v = inv2(st)
         if v:
@@ -833,6 +841,11 @@ def run(ctx):
     for a in ev2:
         for b in ev2:
             tasks.append(("list", (a, b), d2, kinds, gaps))
+    # the same histories with the clock starting at (nearly) zero: time stamps below 1 s, "last heard" values that
+    # truncate to 0 (receivers that stamp relative to their own start)
+    for t0 in ORIGINS:
+        for a in ev2:
+            tasks.append(("list", (("@", t0, 0), a), d2, kinds, gaps))
     ev2b = lag_events()
     for a in ev2b:
         for b in ev2b:
